@@ -41,6 +41,8 @@ func runC14(p *core.Program, r *core.Report) {
 	r.Rule("C14.geometry", "register width/mask/addressing agree across Set, Get, UpdateIfGreater and Merge", 5)
 	r.Rule("C14.index", "index = top log2m bits of the hash; rank = clz((hash << log2m) | guard bit) + 1", 2)
 	r.Rule("C14.serial", "GetBytes ~ BuildHyperLogLog agree on the layout", 1)
+	r.Rule("C14.estimate-pure", "Cardinality() is a function of the registers: it (and the helpers it calls on the counter) assigns no field of the counter, so no estimate survives a later change of the registers", 1)
+	c14EstimatePure(p, r)
 	r.Rule("C14.shifts", "no constant shift is as wide as its operand (the hash's high half is taken from the 64-bit value, not from a narrowed copy)", 3)
 	shiftWidthLint(p, r, "C14.shifts", []string{"util/hll"})
 	r.Rule("C14.widen", "estimator arithmetic widens before it multiplies: no float64/int64 conversion of a product or shift computed in a 32-bit integer type (m*m wraps at log2m = 16)", 1)
@@ -985,4 +987,150 @@ func c14Index(p *core.Program, r *core.Report) {
 		}
 		fileProbs(r, "C14.index", c, p.Pos(fi.Decl.Pos()), uniq(probs), "top-bits index; guarded rank")
 	}
+}
+
+// c14EstimatePure: Cardinality is a function of the registers. It either writes no field of the
+// counter at all, or what it stores is a cache guarded by boolean fields that EVERY method changing the
+// registers sets again (merging is the path that is easily forgotten).
+func c14EstimatePure(p *core.Program, r *core.Report) {
+	fi := p.Method("util/hll", "HyperLogLog", "Cardinality")
+	if fi == nil || fi.Decl.Body == nil {
+		r.Undec("C14.estimate-pure", "util/hll.(*HyperLogLog).Cardinality", "-", "not found")
+		return
+	}
+	t := core.RecvNamed(fi.Obj)
+	var writes []string
+	guards := map[string]bool{} // boolean fields of the counter tested while estimating
+	seen := map[*core.FuncInfo]bool{}
+	var visit func(f *core.FuncInfo, depth int)
+	visit = func(f *core.FuncInfo, depth int) {
+		if seen[f] || depth > 3 || f.Decl.Body == nil {
+			return
+		}
+		seen[f] = true
+		info := f.Pkg.TypesInfo
+		rn := recvName(f)
+		ast.Inspect(f.Decl.Body, func(n ast.Node) bool {
+			switch v := n.(type) {
+			case *ast.AssignStmt:
+				for _, l := range v.Lhs {
+					if root := rootOf(l); root != nil && root.Name == rn {
+						if _, isId := ast.Unparen(l).(*ast.Ident); !isId {
+							writes = append(writes, fmt.Sprintf("%s assigns %s at %s", f.Obj.Name(), types.ExprString(l), p.Pos(v.Pos())))
+						}
+					}
+				}
+			case *ast.IfStmt:
+				ast.Inspect(v.Cond, func(k ast.Node) bool {
+					if sel, ok := k.(*ast.SelectorExpr); ok {
+						if id, ok := ast.Unparen(sel.X).(*ast.Ident); ok && id.Name == rn {
+							if tt := info.TypeOf(sel); tt != nil && isBoolType(tt) {
+								guards[sel.Sel.Name] = true
+							}
+						}
+					}
+					return true
+				})
+			case *ast.CallExpr:
+				if sel, ok := v.Fun.(*ast.SelectorExpr); ok {
+					if id, ok := ast.Unparen(sel.X).(*ast.Ident); ok && id.Name == rn {
+						if fn, _ := info.Uses[sel.Sel].(*types.Func); fn != nil {
+							if cf := p.FuncOf(fn); cf != nil {
+								visit(cf, depth+1)
+							}
+						}
+					}
+				}
+			}
+			return true
+		})
+	}
+	visit(fi, 0)
+	c := "util/hll.(*HyperLogLog).Cardinality"
+	pos := p.Pos(fi.Decl.Pos())
+	if len(writes) == 0 {
+		r.OK("C14.estimate-pure", c, pos, "no field of the counter is written while estimating")
+		return
+	}
+	if len(guards) == 0 {
+		r.Viol("C14.estimate-pure", c, pos, strings.Join(uniq(writes), "; ")+": the estimate is stored in the counter and nothing tells a later call that the registers changed")
+		return
+	}
+	// every method that changes the registers must set a guard again
+	var probs []string
+	for _, m := range p.MethodsOf(t) {
+		if m.Decl.Body == nil || seen[m] {
+			continue
+		}
+		info := m.Pkg.TypesInfo
+		rn := recvName(m)
+		mutates, sets := false, false
+		var walk func(f *core.FuncInfo, depth int)
+		walked := map[*core.FuncInfo]bool{}
+		walk = func(f *core.FuncInfo, depth int) {
+			if walked[f] || depth > 2 || f.Decl.Body == nil {
+				return
+			}
+			walked[f] = true
+			finfo := f.Pkg.TypesInfo
+			frn := recvName(f)
+			ast.Inspect(f.Decl.Body, func(n ast.Node) bool {
+				switch v := n.(type) {
+				case *ast.AssignStmt:
+					for i, l := range v.Lhs {
+						ls := strings.TrimPrefix(stripSpaces(types.ExprString(l)), frn+".")
+						if guards[ls] && i < len(v.Rhs) {
+							if tv, ok := finfo.Types[v.Rhs[i]]; ok && tv.Value != nil && tv.Value.String() == "true" {
+								sets = true
+							}
+						}
+						if ls == "registerSet" || strings.HasPrefix(ls, "registerSet.") {
+							mutates = true
+						}
+					}
+				case *ast.CallExpr:
+					sel, ok := v.Fun.(*ast.SelectorExpr)
+					if !ok {
+						return true
+					}
+					xs := stripSpaces(types.ExprString(sel.X))
+					if xs == frn+".registerSet" {
+						// a RegisterSet method that writes its words
+						if fn, _ := finfo.Uses[sel.Sel].(*types.Func); fn != nil {
+							if cf := p.FuncOf(fn); cf != nil && cf.Decl.Body != nil {
+								crn := recvName(cf)
+								ast.Inspect(cf.Decl.Body, func(k ast.Node) bool {
+									if as, ok := k.(*ast.AssignStmt); ok {
+										for _, l := range as.Lhs {
+											if root := rootOf(l); root != nil && root.Name == crn {
+												if _, isId := ast.Unparen(l).(*ast.Ident); !isId {
+													mutates = true
+												}
+											}
+										}
+									}
+									return true
+								})
+							}
+						}
+					}
+					if id, ok := ast.Unparen(sel.X).(*ast.Ident); ok && id.Name == frn {
+						if fn, _ := finfo.Uses[sel.Sel].(*types.Func); fn != nil {
+							if cf := p.FuncOf(fn); cf != nil && !seen[cf] {
+								walk(cf, depth+1)
+							}
+						}
+					}
+				}
+				return true
+			})
+		}
+		_ = info
+		_ = rn
+		walk(m, 0)
+		if mutates && !sets {
+			probs = append(probs, fmt.Sprintf("%s changes the registers without setting the guard of the cached estimate again: the next Cardinality() returns the estimate of the old registers", m.Obj.Name()))
+		}
+	}
+	fileProbs(r, "C14.estimate-pure", c, pos, uniq(probs), "the stored estimate is invalidated by every method that changes the registers")
 }
